@@ -392,6 +392,15 @@ def nofilter(F, res):
             n = c.split("::")[-1]
             if n in ("filter", "filter_map", "take", "skip", "dedup", "dedup_by_key", "step_by", "take_while", "skip_while") and ("Iterator" in c or "Vec" in c):
                 bad.append(n)
+    # ... nor does anything it calls inside the compiler crate collapse the refs through a container keyed by a part of the
+    # reference (`BTreeMap<txid, index>`: two outputs of one transaction become one input)
+    from ..common import keyed_collapses
+    reach = [F.fns[p] for p in CallGraph(F, callbacks=False).reachable([f["path"]]) if F.fns[p]["crate"] == f["crate"] and not is_derive(F.fns[p])]
+    for g in reach:
+        for line, what in keyed_collapses(F, g):
+            key2 = "%s|keyed collapse" % g["path"]
+            res.add([finding("NOFILTER", key2, where(g, line), "on the way from the selected UTxOs into the body's inputs, %s: UTxOs that agree on that part become one input" % what)])
+    res.count("functions between the selection and the body's inputs", len(reach))
     key = f["path"] + "|no filtering or de-duplication"
     if bad:
         res.add([finding("NOFILTER", key, where(f), "compile_inputs uses %s: selected UTxOs can be dropped or merged on the way into the body" % sorted(set(bad)))])
